@@ -201,7 +201,11 @@ pub fn arr(v: &Value) -> &Vec<Value> {
 pub fn par_replay(cases: &[Value], rep: &mut Report, f: impl Fn(&[Value], &mut Report) + Sync) {
   let threads = std::thread::available_parallelism().map(|n| n.get()).unwrap_or(4).min(16);
   if cases.len() < 64 || threads == 1 {
-    f(cases, rep);
+    let mut r = Report::new();
+    if let Err(p) = guarded(|| f(cases, &mut r)) {
+      r.mismatch("no_panic/escaped_the_case_guard", &Value::Null, json!("no panic"), json!(p), "panic in the code under test");
+    }
+    rep.merge(r);
     return;
   }
   let chunk = cases.len().div_ceil(threads);
